@@ -111,6 +111,13 @@ def verify_function(index: SourceIndex, c: Contract, registry: Optional[dict] = 
                     out = Outcome("return", val, None, list(cx.events), list(cx.writes))
                 except PyRaise as pr:
                     out = Outcome("raise", None, pr.exc, list(cx.events), list(cx.writes))
+                except Unsupported as us:
+                    if not getattr(c, "prefix_only", False) or cx.loop_frames:
+                        raise
+                    # prefix contract: the obligations speak about what happens BEFORE the first construct the engine
+                    # cannot follow; the path is cut there
+                    cx.assume_note(f"{c.target}: explored up to the first construct outside the engine's reach ({str(us)[:80]})")
+                    out = Outcome("cut", None, None, list(cx.events), list(cx.writes))
                 suffix = f"[{case}]" if case is not None else ""
                 if out.kind == "return":
                     for name, f in c.ensures(cx, a, out.value):
